@@ -132,6 +132,7 @@ func TestVerifC08(t *testing.T) {
 		// every op that changes the log): the reference for reverse reads
 		var cur []vReadRec
 		curOK := false
+		live := map[string]*vRefReader{}
 		for i, op := range prog {
 			if impl[i] == "panic" && fail == "" {
 				fail, tag = fmt.Sprintf("op %d (%s) panics", i, op), "compact-panic"
@@ -139,9 +140,32 @@ func TestVerifC08(t *testing.T) {
 			switch f0 := strings.Fields(op)[0]; {
 			case op == "read 0 u":
 				cur, curOK = vParseRead(impl[i])
-			case f0 == "read" || f0 == "revread" || f0 == "lastoff":
+			case f0 == "read" || f0 == "revread" || f0 == "lastoff" || f0 == "ropen" || f0 == "rnext":
 			default:
 				curOK = false
+			}
+			// live readers: opened (and advanced) BEFORE a compaction, read on AFTER it - also a reader
+			// sitting in a segment the compaction empties or rewrites returns exactly the surviving messages
+			// behind its position
+			if f := strings.Fields(op); f[0] == "ropen" && impl[i] == "ok" {
+				st, _ := strconv.ParseInt(f[2], 10, 64)
+				live[f[1]] = &vRefReader{next: st, u: f[3] == "u"}
+			} else if f[0] == "rnext" && live[f[1]] != nil && curOK && fail == "" {
+				rd := live[f[1]]
+				n, _ := strconv.Atoi(f[2])
+				var want []string
+				for _, x := range cur {
+					if x.off >= rd.next && (rd.u || x.off <= hw) && len(want) < n {
+						want = append(want, x.text)
+					}
+				}
+				if impl[i] != strings.TrimRight("ok "+strings.Join(want, " "), " ") && impl[i] != "ok "+strings.Join(want, " ") {
+					fail, tag = fmt.Sprintf("op %d (%s): a reader opened before the compaction, positioned at offset %d, returned %q; the surviving messages behind its position are %q", i, op, rd.next, impl[i], "ok "+strings.Join(want, " ")), "compact-live-reader-mismatch"
+				}
+				if len(want) > 0 {
+					o, _ := strconv.ParseInt(strings.SplitN(want[len(want)-1], ":", 2)[0], 10, 64)
+					rd.next = o + 1
+				}
 			}
 			if f := strings.Fields(op); f[0] == "revread" && curOK && fail == "" {
 				// a committed reverse reader from s (or from the HW when s is -1 or beyond it) delivers
@@ -293,7 +317,31 @@ func TestVerifC08(t *testing.T) {
 				res.Dist(fmt.Sprintf("cleanmid:groups=%d", g))
 				prog = append(prog, fmt.Sprintf("cleanmid 0 %d %d %s", epoch, ts, strings.Join(parts, " + ")), "read 0 u", "revread -1")
 			}
+			nLive := 0
+			if next > 0 && rnd.Intn(2) == 0 && !strings.Contains(begin, "maxmsgs") {
+				// readers opened before the compaction: at any offset, having delivered 0-2 messages (not
+				// combined with retention: a reader sitting in a segment that RETENTION deletes loses its
+				// position - that is C09's "readable from its new oldest offset", not a compaction matter)
+				prog = append(prog, "read 0 u")
+				for k := 0; k < 1+rnd.Intn(3); k++ {
+					nLive++
+					id := fmt.Sprintf("r%d_%d", r, nLive)
+					mode := "u"
+					st := int64(rnd.Intn(int(next)))
+					if hw >= 0 && rnd.Intn(3) == 0 {
+						mode, st = "c", int64(rnd.Intn(int(hw)+1))
+					}
+					prog = append(prog, fmt.Sprintf("ropen %s %d %s", id, st, mode))
+					if k2 := rnd.Intn(3); k2 > 0 {
+						prog = append(prog, fmt.Sprintf("rnext %s %d", id, k2))
+					}
+				}
+				res.Dist("live-readers-across-clean")
+			}
 			prog = append(prog, "read 0 u", "clean 0", "read 0 u")
+			for k := 1; k <= nLive; k++ {
+				prog = append(prog, fmt.Sprintf("rnext r%d_%d %d", r, k, 50))
+			}
 			for s := int64(0); s < next; s++ {
 				prog = append(prog, fmt.Sprintf("read %d u", s))
 				if s <= hw {
